@@ -57,6 +57,7 @@ import zlib
 
 from harness import core, tables_io
 from harness import c16gen as G
+from harness import c16hist as H
 from harness import coder_io as C
 from harness import coderprops as P
 from harness import views_io as V
@@ -476,7 +477,7 @@ def evaluate(task):
     -> dict(skip=..)| dict(findings=[..], queries=[..], counts={..})"""
     try:
         t0 = time.time()
-        r = _evaluate(task)
+        r = H.evaluate(task) if task.get('hist') else _evaluate(task)
         r['_time'] = time.time() - t0
         return r
     except core.MachineryError as e:
@@ -991,6 +992,30 @@ def run(ctx):
         tasks.append((dict(b=raw, ids=ids, seed='%s:file:%s' % (seed0, os.path.basename(path)), budget=40 if quick else 160,
                            alt=None, compiled=True, corpus=True, max_values=max_values, grid=site_sample), ids, 'corpus',
                       os.path.basename(path)))
+    # -- histories on one reused DataQuerent / BufrMessageQuerent / NodePathParser (harness/c16hist.py): groups of
+    #    messages taken from the tasks above: the two storage forms of one template (built with different values,
+    #    replication counts and subset counts) + messages of other templates
+    rng = ctx.rng('histories')
+    by_ids = {}
+    small = []
+    for (t, ids, tag, name) in tasks:
+        if t.get('part', (0, 1))[0] != 0 or len(t['b']) > 6000:
+            continue
+        it = dict(b=t['b'], ids=ids, corpus=bool(t.get('corpus')), file=name)
+        by_ids.setdefault(tuple(ids), []).append(it)
+        small.append(it)
+    pairs = [v for v in by_ids.values() if len(v) >= 2]
+    rng.shuffle(pairs)
+    n_groups = 40 if quick else 400
+    hist_tasks = []
+    for k in range(n_groups):
+        if not small:
+            break
+        items = list(pairs[k % len(pairs)][:2]) if pairs and k % 4 != 3 else []
+        while len(items) < (3 if k % 2 else 4):
+            items.append(rng.choice(small))
+        hist_tasks.append(dict(hist=True, items=items, seed='%s:hist:%d' % (seed0, k), n_ops=70 if quick else 110,
+                               weight=2 * 10 ** 5))
     # -- evaluate
     t_build = time.time() - ctx.t0
     t0 = time.time()
@@ -998,13 +1023,16 @@ def run(ctx):
     try:
         # big ones first
         order = sorted(range(len(tasks)), key=lambda i: -(tasks[i][0].get('weight') or len(tasks[i][0]['b'])))
-        results = pool.map(evaluate, [tasks[i][0] for i in order], chunksize=1)
+        results = pool.map(evaluate, hist_tasks + [tasks[i][0] for i in order], chunksize=1)
     finally:
         pool.terminate()
+    hist_results, results = results[:len(hist_tasks)], results[len(hist_tasks):]
     by = dict(zip(order, results))
     GRID_DONE.clear()
     if os.environ.get('VERIF_TIMING'):
         print('timing: build %.1fs, evaluation %.1fs, worker time %.1fs' % (t_build, time.time() - t0, sum(r.get('_time', 0) for r in results)))
+        print('  histories    %4d tasks %7.1fs %7d operations' % (len(hist_tasks), sum(r.get('_time', 0) for r in hist_results),
+                                                                  sum(r.get('n_ops', 0) for r in hist_results)))
         agg = {}
         for i in by:
             a = agg.setdefault(tasks[i][2].split(':')[0], [0, 0, 0])
@@ -1017,6 +1045,8 @@ def run(ctx):
             print('  task %s part %s: %.1fs, %d queries' % (tasks[i][2], tasks[i][0].get('part'), by[i].get('_time', 0), len(by[i].get('queries', []))))
     for i, (task, ids, tag, name) in enumerate(tasks):
         absorb(ctx, task, by[i], ids, tag, name)
+    for task, res in zip(hist_tasks, hist_results):
+        H.absorb(ctx, task, res)
     # the systematic slice space: which (step kind, n) were covered by a whole grid
     missing = []
     for kind_ in ('/', '.', '>', '@'):
@@ -1061,6 +1091,25 @@ def replay(ctx, path):
     rep = body['replay']
     if 'undischarged' in rep:
         print('replay: proof obligations are re-checked by the audit above')
+        return
+    if 'history' in rep:
+        items = []
+        for it in rep['items']:
+            if it.get('hex'):
+                b = bytes.fromhex(it['hex'])
+            else:
+                b = None
+                for d in ('data', 'benchmark_data'):
+                    p = os.path.join(core.REPO, 'tests', d, it.get('file') or '?')
+                    if os.path.exists(p):
+                        b = K9.corpus_item(p)
+                if b is None:
+                    raise core.MachineryError('replay: message of the history not available')
+            items.append(dict(b=b, ids=it['ids'], corpus=it.get('corpus', False), file=it.get('file')))
+        task = dict(hist=True, items=items, seed='replay', n_ops=0, history=rep['history'])
+        res = evaluate(task)
+        print('replay: %s' % (json.dumps(res.get('reports', res), default=repr)[:1500] or 'no finding'))
+        H.absorb(ctx, task, res)
         return
     if 'pyslice' in rep:
         a, b, c, n = rep['pyslice']
